@@ -110,6 +110,8 @@ def descriptors() -> dict[str, NodeV]:
     d["DROP VIEW"] = node("Drop", "stmt", kind=Const("VIEW"), this=table("V"))
     d["DROP SCHEMA"] = node("Drop", "stmt", kind=Const("SCHEMA"), this=table(None, "S"))
     d["DROP DATABASE"] = node("Drop", "stmt", kind=Const("DATABASE"), this=table("D"))
+    d["DROP SCHEMA current"] = node("Drop", "stmt", kind=Const("SCHEMA"), this=table(None, "CUR_SCHEMA"))
+    d["DROP DATABASE current"] = node("Drop", "stmt", kind=Const("DATABASE"), this=table("CUR_DB"))
     d["ALTER TABLE ADD COLUMN"] = node("Alter", "stmt", kind=Const("TABLE"), this=table("T"),
                                        actions=Lst([coldef("B", "VARCHAR", 20)]))
     d["ALTER TABLE RENAME"] = node("Alter", "stmt", kind=Const("TABLE"), this=table("T"),
@@ -300,11 +302,13 @@ def run_kind(prog: Program, kind: str, mode: str | None, database_set=True, sche
 class FullHooks(ExecHooks):
     """execute(command, params): the Snowflake parse is replaced by a statement descriptor."""
 
-    def __init__(self, mode, kind, undefined_var=None):
+    def __init__(self, mode, kind, undefined_var=None, nop_match=None):
         super().__init__(mode)
         self.kind = kind
         self.parsed = 0
         self.undefined_var = undefined_var  # None: explore both; False: no residual $name; True: a residual $name
+        self.nop_match = nop_match  # None: explore both; True/False: the configured nop pattern matches / does not match
+        self.nop_calls = []
 
     def obj_method(self, I, recv, name, args, kwargs, site):
         if recv.kind == "match" and name == "group":
@@ -316,6 +320,10 @@ class FullHooks(ExecHooks):
             self.parsed += 1
             I.effect("parse-user", args[0] if args else None, site)
             return descriptors()[self.kind]
+        if d in ("re.match", "re.search", "re.fullmatch") and self.nop_match is not None and not (I.callstack and "variables" in I.callstack[-1]):
+            self.nop_calls.append((d, args, kwargs, site))
+            I.effect("call", d, args, kwargs, site)
+            return Obj("nop_match", kind="match") if self.nop_match else Const(None)
         if d in ("re.search", "re.findall", "re.finditer") and self.undefined_var is not None and I.callstack and "variables" in I.callstack[-1]:
             I.effect("call", d, args, kwargs, site)
             return Obj("residual_match", kind="match") if self.undefined_var else Const(None)
@@ -323,12 +331,12 @@ class FullHooks(ExecHooks):
 
 
 def run_execute(prog: Program, kind: str, mode: str | None, params=None, paramstyle="pyformat", nop_regexes=None,
-                variables=None, max_paths=256, old_sqlstate="OLD", undefined_var=False):
+                variables=None, max_paths=256, old_sqlstate="OLD", undefined_var=False, nop_match=None):
     out = []
     hooks_list, sessions = [], []
 
     def factory():
-        h = FullHooks(mode, kind, undefined_var)
+        h = FullHooks(mode, kind, undefined_var, nop_match)
         hooks_list.append(h)
         return h
 
